@@ -111,6 +111,9 @@ def run(ctx):
     ctx.assume("the byte layout of the real encoder is compared with the format definition but a difference there "
                "alone is DRIFT: C01 only demands that the real encoder/decoder pair round-trips")
 
+    # 0. the specification's number / UTF-8 layer against TLC arithmetic, known encodings
+    ctx.tlc_gen("flat", "FlatLaws", "FlatLaws.cfg", ctx.path("laws.ndjson"), workers=1)
+
     matrix = {k: [0] * 8 for k in KINDS}
     passes = [("w2", 2, [("AlphaQuick", "AlphaThorough")]), ("d3", 3, [("MaxOps = 2", "MaxOps = 3"), ("AlphaQuick", "AlphaDeep")])] \
         if ctx.thorough else [("q2", 2, [])]
